@@ -25,6 +25,7 @@ type RelaySpec struct {
 // ZSpec describes one Byzantine peer.
 type ZSpec struct {
 	Name    string      `json:"name"`
+	Prefix  int         `json:"prefix"`  // honest-prefix: number of blocks of the honest branch (above the trunk) the peer holds
 	View    string      `json:"view"`    // "honest": the honest peer's chain | "fork": its own crafted fork | "victim": the victim's chain
 	ForkAt  int         `json:"forkAt"`  // fork: height of the base block on the honest chain
 	ForkLen int         `json:"forkLen"` // fork: number of blocks
@@ -33,6 +34,7 @@ type ZSpec struct {
 	Rules   []Rule      `json:"rules"`
 	Relays  []RelaySpec `json:"relays"`
 	Expect  string      `json:"expect"` // ban: provable misbehaviour, a PeerStore.Ban call must be recorded | "": nothing required
+	Tag     string      `json:"tag"`     // free label that goes into signatures
 	Dials   bool        `json:"dials"`  // the Byzantine peer dials the victim (else the victim dials it)
 }
 
@@ -243,6 +245,11 @@ func RunByz(sc ByzScenario, slot int) (out *ByzOutcome) {
 			view = ViewOf(w, htip)
 		case "victim":
 			view = ViewOf(w, vtip)
+		case "honest-prefix":
+			// the first Prefix blocks of the honest branch: a fork that is still LIGHTER than the victim's
+			hb := w.ChainOf(htip)
+			n := min(len(hb), sc.Trunk+zspec.Prefix)
+			view = NewView(w, hb[:n])
 		case "fork":
 			base := "g"
 			if zspec.ForkAt > 0 {
@@ -581,7 +588,7 @@ func RunByz(sc ByzScenario, slot int) (out *ByzOutcome) {
 			case "Ban":
 				out.Bans = append(out.Bans, n.Opts.Name+"->"+ev.Who+":"+ev.Kind)
 				if strings.HasPrefix(ev.Who, "honest:") {
-					fail(false, "byz:ban-honest:"+ev.Kind, "node %s banned %s: %s", n.Opts.Name, ev.Who, ev.Why)
+					fail(false, "byz:ban-honest:"+ev.Kind+":"+strings.Join(kinds, "+"), "node %s banned %s: %s", n.Opts.Name, ev.Who, ev.Why)
 				}
 			case "AddBlocks", "AddValidated":
 				if ev.Tip != prev {
@@ -628,6 +635,11 @@ func zKind(z ZSpec) string {
 		parts = append(parts, "fork-"+z.BadKind)
 	} else if z.View == "planted" {
 		parts = append(parts, "serve-planted")
+	} else if z.View == "honest-prefix" {
+		parts = append(parts, "prefix")
+	}
+	if z.Tag != "" {
+		parts = append(parts, z.Tag)
 	}
 	for _, r := range z.Rules {
 		parts = append(parts, r.RPC+"-"+r.Kind)
